@@ -646,6 +646,11 @@ class Engine:
         self.max_decisions = max_decisions
         self.choose_limit = choose_limit
         self.hash_collapse = False
+        # opt-in (harness sets ENG.uf_prune): a feasibility query the incremental solver does not decide
+        # within uf_quick_ms is first tried with * / % abstracted to uninterpreted functions (symx/solve.py;
+        # 'unsat' transfers to the real operators), then repeated with the full timeout
+        self.uf_prune = False
+        self.uf_quick_ms = 1500
         self.solver = z3.Solver()
         self.solver.set("timeout", timeout_ms)
         self.stats = dict(paths=0, decisions=0, feas_queries=0, feas_unknown=0, solver_s=0.0,
@@ -701,7 +706,19 @@ class Engine:
         if extra:
             self.solver.push()
             self.solver.add(*extra)
-        r = self.solver.check()
+        if self.uf_prune:
+            self.solver.set("timeout", min(self.uf_quick_ms, self.timeout_ms))
+            r = self.solver.check()
+            self.solver.set("timeout", self.timeout_ms)
+            if r == z3.unknown:
+                from . import solve
+                if solve.uf_unsat(list(self.pc) + list(extra), min(5000, self.timeout_ms)):
+                    r = z3.unsat
+                    self.stats["uf_pruned"] = self.stats.get("uf_pruned", 0) + 1
+                else:
+                    r = self.solver.check()
+        else:
+            r = self.solver.check()
         m = self.solver.model() if r == z3.sat else None
         if extra:
             self.solver.pop()
